@@ -54,7 +54,10 @@ extern size_t gh_li; /* witness: index into state->buffer */
 #define NEXT_NOT(s, CLASS) (LEX_ATEND(s) || !CLASS((s)->pos[0]))
 
 /* ---- runs of one character class ------------------------------------------------------ */
-#define RUN_CONTRACT(name, CLASS) \
+#define RUN_CONTRACT(name, CLASS) RUN_CONTRACT_(name, CLASS, )
+/* with the last-byte clause (needed by skipExponent's content clause; too expensive for the other classes) */
+#define RUN_CONTRACT_L(name, CLASS) RUN_CONTRACT_(name, CLASS, CONTENT_ENS(RET > 0 ==> CLASS(state->pos[-1])))
+#define RUN_CONTRACT_(name, CLASS, LAST) \
 static int name(lex_state_t * state) \
 __CPROVER_requires(LEX_PRE(state)) \
 __CPROVER_assigns(state->pos) \
@@ -63,9 +66,10 @@ __CPROVER_ensures(RET == DISP(state)) \
 __CPROVER_ensures(NEXT_NOT(state, CLASS)) \
 __CPROVER_ensures(RET > 0 ==> CLASS(POS0(state)[0])) \
 CONTENT_ENS(CONSUMED(state) ==> CLASS(state->buffer[gh_li])) \
+LAST \
 ;
 RUN_CONTRACT(skipWs, ISWS)
-RUN_CONTRACT(skipNumbers, ISDIG)
+RUN_CONTRACT_L(skipNumbers, ISDIG)
 RUN_CONTRACT(skipAlpha, ISALPHA)
 RUN_CONTRACT(skipHexNum, ISXDIG)
 RUN_CONTRACT(skipOctNum, ISODIG)
